@@ -1,22 +1,36 @@
 /-
-  Lemmas for C13, part 5: nothing outside the closure is copied (under the guard of D1301).
+  Lemmas for C13, part 5: nothing outside the closure is copied.
 -/
 import XlVerif.Lemmas.C13Sound
 namespace XlVerif.Lemmas.C13
 open XlVerif XlVerif.Model.Evaluator XlVerif.Model.C13 XlVerif.Spec.C13
 
-/-- every copied cell / range and every term on the list lies in `R` -/
-structure AllIn (R : Addr → Prop) (x : XModel) (todo : List Addr) : Prop where
+/-- every copied cell / range lies in `R`; every term on the list denotes an address of `R` -/
+structure AllIn (m : XModel) (R : Addr → Prop) (x : XModel) (todo : List Addr) : Prop where
   cell : ∀ a c, x.st.cell? a = some c → R a
   range : ∀ k r, x.st.range? k = some r → R k
-  todo : ∀ t ∈ todo, R t
+  todo : ∀ t ∈ todo, R (target m t)
 
 section
 variable {m : XModel} {focus : List Addr}
 
-theorem terms_in_closure (hnf : NameFree m (Closure (deps m) focus)) {a : Addr} {c : Cell}
+theorem target_of_not_name {t : Addr} (h : m.isName t = false) : target m t = t := by
+  obtain ⟨h1, h2⟩ := isName_false h
+  simp only [target, h1, h2]
+
+theorem not_name_of_entry (hwf : WF m) {t : Addr} (h : m.st.range? t ≠ none ∨ m.st.cell? t ≠ none) :
+    m.isName t = false := by
+  cases hn : m.isName t with
+  | false => rfl
+  | true =>
+    obtain ⟨h1, h2⟩ := hwf.nameNotCell t hn
+    rcases h with h | h
+    · exact absurd h2 h
+    · exact absurd h1 h
+
+theorem terms_in_closure {a : Addr} {c : Cell}
     (ha : Closure (deps m) focus a) (hc : m.st.cell? a = some c) :
-    ∀ u ∈ cellTerms c, Closure (deps m) focus u := by
+    ∀ u ∈ cellTerms c, Closure (deps m) focus (target m u) := by
   intro u hu
   apply Closure.step ha
   simp only [deps, hc, List.mem_append]
@@ -25,14 +39,8 @@ theorem terms_in_closure (hnf : NameFree m (Closure (deps m) focus)) {a : Addr} 
   | none => simp [cellTerms, hf] at hu
   | some f =>
     simp only
-    have hid : substFx m f = f := by
-      apply substFx_id
-      intro t ht
-      apply (hnf a ha).1 c hc
-      simp only [cellTerms, hf]
-      exact (mem_terms t f).mpr ht
-    rw [hid]
-    simpa [cellTerms, hf] using hu
+    rw [mem_terms, refs_substFx, List.mem_map]
+    exact ⟨u, (mem_terms u f).mp (by simpa [cellTerms, hf] using hu), rfl⟩
 
 theorem members_in_closure {a : Addr} {r : Range} (ha : Closure (deps m) focus a)
     (hr : m.st.range? a = some r) : ∀ y ∈ r.cells.flatten, Closure (deps m) focus y := by
@@ -75,18 +83,19 @@ theorem copyCell_entries {R : Addr → Prop} {x x' : XModel} {b : Addr} (h : cop
     · exact hx p hp
     · rw [hp]; exact ⟨hm, hb⟩
 
-theorem copyCells_entries {R : Addr → Prop} : ∀ (l : List Addr) (x x' : XModel), copyCells m x l = .ok x' →
-    (∀ b ∈ l, R b) → Entries m R x → Entries m R x'
-  | [], x, x', h, _, hx => by
-    simp only [copyCells, Except.ok.injEq] at h; subst h; exact hx
-  | b :: rest, x, x', h, hl, hx => by
-    simp only [copyCells] at h
-    cases h1 : copyCell m x b with
-    | error e => rw [h1] at h; cases h
-    | ok x1 =>
-      rw [h1] at h
-      exact copyCells_entries rest x1 x' h (fun y hy => hl y (List.mem_cons_of_mem _ hy))
-        (copyCell_entries h1 (hl b List.mem_cons_self) hx)
+theorem copyCellsOpt_entries {R : Addr → Prop} : ∀ (l : List Addr) (x : XModel),
+    (∀ b ∈ l, R b) → Entries m R x → Entries m R (copyCellsOpt m x l)
+  | [], _, _, hx => hx
+  | b :: rest, x, hl, hx => by
+    simp only [copyCellsOpt]
+    cases hm : m.st.cell? b with
+    | none => exact copyCellsOpt_entries rest x (fun y hy => hl y (List.mem_cons_of_mem _ hy)) hx
+    | some c0 =>
+      apply copyCellsOpt_entries rest _ (fun y hy => hl y (List.mem_cons_of_mem _ hy))
+      intro p hp
+      rcases mem_assocSet hp with hp | hp
+      · exact hx p hp
+      · rw [hp]; exact ⟨hm, hl b List.mem_cons_self⟩
 
 theorem focusStep_entries {x x' : XModel} {a : Addr} (h : focusStep m x a = .ok x')
     (ha : Closure (deps m) focus a) (hx : Entries m (Closure (deps m) focus) x) :
@@ -115,8 +124,9 @@ theorem focusStep_entries {x x' : XModel} {a : Addr} (h : focusStep m x a = .ok 
       cases hrn : assoc a m.rnames with
       | some rn =>
         rw [hrn] at h
-        simp only at h
-        exact copyCells_entries _ _ x' h
+        simp only [Except.ok.injEq] at h
+        subst h
+        exact copyCellsOpt_entries _ _
           (fun b hb => Closure.step ha (by simp only [deps, hn, hrn, List.mem_append]; exact Or.inl hb))
           (fun p hp => hx p hp)
       | none =>
@@ -139,45 +149,73 @@ theorem focusPhase_entries : ∀ (l : List Addr) (x x' : XModel), focusPhase m x
       exact focusPhase_entries rest x1 x' h (fun y hy => hl y (List.mem_cons_of_mem _ hy))
         (focusStep_entries h1 (hl a List.mem_cons_self) hx)
 
-theorem step_allIn (hnf : NameFree m (Closure (deps m) focus)) {x : XModel} {t : Addr} {rest : List Addr}
-    (h : AllIn (Closure (deps m) focus) x (t :: rest)) :
-    AllIn (Closure (deps m) focus) (step m x t).1 ((step m x t).2 ++ rest) := by
+theorem step_allIn (hwf : WF m) {x : XModel} (hs : Sub x m) {t : Addr} {rest : List Addr}
+    (h : AllIn m (Closure (deps m) focus) x (t :: rest)) :
+    AllIn m (Closure (deps m) focus) (step m x t).1 ((step m x t).2 ++ rest) := by
   have ht := h.todo t List.mem_cons_self
-  have hrest : ∀ u ∈ rest, Closure (deps m) focus u := fun u hu => h.todo u (List.mem_cons_of_mem _ hu)
-  rcases step_cases m x t with ⟨r, h1, _, h3⟩ | ⟨c, h1, _, _, h4⟩ | ⟨_, _, h3⟩
-  · rw [h3]
-    refine ⟨fun a c hc => h.cell a c hc, fun k r' hk => ?_, fun u hu => ?_⟩
-    · simp only [range?_setRange] at hk
-      by_cases hkt : k = t
-      · rw [hkt]; exact ht
-      · simp only [hkt, if_false] at hk; exact h.range k r' hk
-    · rcases List.mem_append.mp hu with hu | hu
-      · exact members_in_closure ht h1 u (List.mem_reverse.mp hu)
-      · exact hrest u hu
-  · rw [h4]
-    refine ⟨fun a c' hc => ?_, fun k r hk => h.range k r hk, fun u hu => ?_⟩
-    · simp only [cell?_setCell] at hc
-      by_cases hat : a = t
-      · rw [hat]; exact ht
-      · simp only [hat, if_false] at hc; exact h.cell a c' hc
-    · rcases List.mem_append.mp hu with hu | hu
-      · exact terms_in_closure hnf ht h1 u (List.mem_reverse.mp hu)
-      · exact hrest u hu
-  · rw [h3]
-    exact ⟨h.cell, h.range, fun u hu => hrest u (by simpa using hu)⟩
+  have hrest : ∀ u ∈ rest, Closure (deps m) focus (target m u) :=
+    fun u hu => h.todo u (List.mem_cons_of_mem _ hu)
+  rcases step_cases m x t with ⟨_, _, he⟩ | ⟨hne, he⟩
+  · -- a defined name: what it is bound to is pushed
+    rw [he]
+    obtain ⟨_, hcells, hranges, _, hn1, hn2, hn3⟩ := nameStep_spec hs t
+    refine ⟨fun a c hc => h.cell a c (by simpa only [MState.cell?, hcells] using hc),
+      fun k r hk => h.range k r (by simpa only [MState.range?, hranges] using hk), fun u hu => ?_⟩
+    rcases List.mem_append.mp hu with hu | hu
+    · cases hn : assoc t m.st.names with
+      | some a =>
+        rw [(hn1 a hn).2, List.mem_singleton] at hu
+        subst hu
+        rw [target_of_not_name (hwf.targetNotName t _ hn)]
+        simpa only [target, hn] using ht
+      | none =>
+        cases hrn : assoc t m.rnames with
+        | some rn =>
+          rw [(hn2 hn rn hrn).2, List.mem_singleton] at hu
+          subst hu
+          rw [target_of_not_name (key_not_name hwf hrn)]
+          simpa only [target, hn, hrn] using ht
+        | none => rw [hn3 hn hrn] at hu; cases hu
+    · exact hrest u hu
+  · -- a cell or a range of the model
+    rw [he]
+    have htt : Closure (deps m) focus t := by
+      rw [target_of_not_name (not_name_of_entry hwf hne)] at ht; exact ht
+    rcases baseStep_cases m x t with ⟨r, h1, _, h3⟩ | ⟨c, h1, _, _, h4⟩ | ⟨_, _, h3⟩
+    · rw [h3]
+      refine ⟨fun a c hc => h.cell a c hc, fun k r' hk => ?_, fun u hu => ?_⟩
+      · simp only [range?_setRange] at hk
+        by_cases hkt : k = t
+        · rw [hkt]; exact htt
+        · simp only [hkt, if_false] at hk; exact h.range k r' hk
+      · rcases List.mem_append.mp hu with hu | hu
+        · have hy := List.mem_reverse.mp hu
+          rw [target_of_not_name (hwf.rangeMemberNotName t r h1 u hy)]
+          exact members_in_closure htt h1 u hy
+        · exact hrest u hu
+    · rw [h4]
+      refine ⟨fun a c' hc => ?_, fun k r hk => h.range k r hk, fun u hu => ?_⟩
+      · simp only [cell?_setCell] at hc
+        by_cases hat : a = t
+        · rw [hat]; exact htt
+        · simp only [hat, if_false] at hc; exact h.cell a c' hc
+      · rcases List.mem_append.mp hu with hu | hu
+        · exact terms_in_closure htt h1 u (List.mem_reverse.mp hu)
+        · exact hrest u hu
+    · rw [h3]
+      exact ⟨h.cell, h.range, fun u hu => hrest u (by simpa using hu)⟩
 
-theorem worklist_allIn (hnf : NameFree m (Closure (deps m) focus)) : ∀ (n : Nat) (x : XModel) (todo : List Addr),
-    AllIn (Closure (deps m) focus) x todo →
-      AllIn (Closure (deps m) focus) (worklist m n x todo).1 (worklist m n x todo).2
-  | 0, _, _, h => h
-  | _ + 1, _, [], h => h
-  | n + 1, x, t :: rest, h => by
+theorem worklist_allIn (hwf : WF m) : ∀ (n : Nat) (x : XModel) (todo : List Addr), Sub x m →
+    AllIn m (Closure (deps m) focus) x todo →
+      AllIn m (Closure (deps m) focus) (worklist m n x todo).1 (worklist m n x todo).2
+  | 0, _, _, _, h => h
+  | _ + 1, _, [], _, h => h
+  | n + 1, x, t :: rest, hs, h => by
     simp only [worklist]
-    exact worklist_allIn hnf n _ _ (step_allIn hnf h)
+    exact worklist_allIn hwf n _ _ (step_grow hs t).sub (step_allIn hwf hs h)
 
 /-- every cell and every range of the extracted model lies in the closure of the focus -/
-theorem extract_minimal (hnf : NameFree m (Closure (deps m) focus)) {x : XModel}
-    (hx : extract m focus = .ok x) :
+theorem extract_minimal_aux (hwf : WF m) {x : XModel} (hx : extract m focus = .ok x) :
     (∀ a c, x.st.cell? a = some c → Closure (deps m) focus a)
     ∧ (∀ k r, x.st.range? k = some r → Closure (deps m) focus k) := by
   unfold extract at hx
@@ -186,18 +224,18 @@ theorem extract_minimal (hnf : NameFree m (Closure (deps m) focus)) {x : XModel}
   | ok x0 =>
     rw [h0] at hx
     simp only [Except.ok.injEq] at hx
-    obtain ⟨_, _, hr, _⟩ := focusPhase_ok focus _ _ h0 (sub_empty m)
+    obtain ⟨g, _, hr, _⟩ := focusPhase_ok focus _ _ h0 (sub_empty m)
     have hent := focusPhase_entries focus XModel.empty x0 h0 (fun a ha => Closure.root ha)
       (fun p hp => by simp [XModel.empty] at hp)
-    have hinit : AllIn (Closure (deps m) focus) x0 (initTerms x0).reverse := by
+    have hinit : AllIn m (Closure (deps m) focus) x0 (initTerms x0).reverse := by
       refine ⟨fun a c hc => (hent (a, c) (assoc_mem hc)).2, fun k r hk => ?_, fun t ht => ?_⟩
       · rw [MState.range?, hr] at hk; simp [XModel.empty, assoc] at hk
       · have ht' := List.mem_reverse.mp ht
         simp only [initTerms, List.mem_flatMap, List.mem_filter] at ht'
         obtain ⟨p, hp, htc, _⟩ := ht'
         obtain ⟨h1, h2⟩ := hent p hp
-        exact terms_in_closure hnf h2 h1 t htc
-    have := worklist_allIn hnf (workFuel m (initTerms x0).reverse) x0 _ hinit
+        exact terms_in_closure h2 h1 t htc
+    have := worklist_allIn hwf (workFuel m (initTerms x0).reverse) x0 _ g.sub hinit
     rw [hx] at this
     exact ⟨this.cell, this.range⟩
 
